@@ -386,7 +386,14 @@ class Body:
 
     def pldesc(self, pl):
         l, projs = self.resolve_place(pl)
-        nm = self.local_name(l) or ("_%d" % l)
+        nm = self.local_name(l)
+        if nm is None:
+            sd = self.single_def(l)
+            if sd and sd[2] == "call":
+                cn = callee_names(sd[3]["func"])
+                nm = (cn[0].split("::")[-1] + "()") if cn else "tmp"
+            else:
+                nm = "tmp"
         return nm + "".join((" " + p if p.startswith("as ") else p) for p in projs if p not in ("*", "&"))
 
     def op_root_ty(self, op):
@@ -451,7 +458,8 @@ class Body:
 
     def loc(self, bi=None, ln=None):
         if ln is None and bi is not None:
-            ln = self.blocks[bi]["term"].get("ln")
+            t = self.blocks[bi]["term"]
+            ln = t.get("cln") if t.get("exp") and t.get("cln") else t.get("ln")
         return "%s:%s" % (self.file, ln if ln is not None else self.line)
 
 
@@ -560,6 +568,8 @@ class Program:
                     tgt.add(res)
                 elif fn in self.bodies:
                     tgt.add(fn)
+                elif res:
+                    pass  # resolved to a non-local impl (std / dependency): no local callee
                 elif fn in impl_methods:
                     # unresolved trait call: all local impls (sound over-approximation)
                     for p in impl_methods[fn]:
